@@ -1614,9 +1614,15 @@ fn generate_all(rng: &mut Rng, tier: Tier, emit: &mut dyn FnMut(String)) {
     }
     // (f) frame level, end to end (harness/src/e2e/retry.rs with UNPREPARED answers): a real Session against the mock
     //     cluster; the k-th statement frame of a request is answered with the k-th outcome of its script
-    for i in 0..(if quick { 200 } else { 2000 }) {
+    let n_wire = if quick { 200 } else { 2000 };
+    // the last fifth: DIRECTED at profiles derived through to_builder() / pointee_to_builder() (the policy lives on the
+    // base profile only) and at "nothing configured": the policies that differ most from the built-in default,
+    // non-idempotent and idempotent alike
+    let n_directed = n_wire / 4;
+    for i in 0..(n_wire + n_directed) {
+        let directed = i >= n_wire;
         let n = 1 + rng.below(3);
-        let pol = *rng.pick(&["def", "def", "down", "down", "fall"]);
+        let pol = if directed { *rng.pick(&["fall", "fall", "down", "def"]) } else { *rng.pick(&["def", "def", "down", "down", "fall"]) };
         let idem = if i % 3 == 2 { 1 } else { 0 };
         let kind = *rng.pick(&["exec", "exec", "batch", "batch", "query", "qvals", "qvals", "batchv", "batchv", "itere", "itere", "iterq", "itere", "ctl"]);
         let iter_kind = kind == "itere" || kind == "iterq" || kind == "ctl";
@@ -1631,10 +1637,19 @@ fn generate_all(rng: &mut Rng, tier: Tier, emit: &mut dyn FnMut(String)) {
         };
         // where policy and consistency are configured (statement / session profile / statement's profile handle /
         // statement with decoys on both profiles)
-        let cfg = if via == "caching" || kind == "ctl" { "stmt" } else { *rng.pick(&["stmt", "stmt", "profile", "handle", "both"]) };
+        let cfg = if via == "caching" || kind == "ctl" {
+            "stmt"
+        } else if directed {
+            *rng.pick(&["dprofile", "dhandle", "dprofile", "dhandle", "none"])
+        } else {
+            *rng.pick(&["stmt", "stmt", "profile", "handle", "both", "dprofile", "dhandle", "none"])
+        };
+        // nothing configured: the default policy at the default consistency, no timeout
+        let (pol, cl) = if cfg == "none" { ("def", "q") } else { (pol, cl) };
+        let der = if cfg == "dprofile" || cfg == "dhandle" { format!(" der={}", crate::e2e::retry::gen_der(rng)) } else { String::new() };
         let pages = 2 + rng.below(3);
         // a request timeout (statement- or profile-level) against an answer that takes 400 ms
-        let tmo = if via == "session" && kind != "ctl" && rng.chance(1, 6) { Some((*rng.pick(&[100u64, 150, 1500]), *rng.pick(&["stmt", "profile"]))) } else { None };
+        let tmo = if via == "session" && kind != "ctl" && cfg != "none" && rng.chance(1, 6) { Some((*rng.pick(&[100u64, 150, 1500]), *rng.pick(&["stmt", "profile"]))) } else { None };
         let n_req = if tmo.is_some() { 2 } else { 3 + rng.below(3) };
         let mut scripts = Vec::new();
         for _ in 0..n_req {
@@ -1680,7 +1695,7 @@ fn generate_all(rng: &mut Rng, tier: Tier, emit: &mut dyn FnMut(String)) {
         }
         // the same text executed by callers with DIFFERENT idempotence flags (a cache must not keep the first one's)
         let idems = if via == "caching" || rng.chance(1, 4) {
-            format!(" idems={}", (0..scripts.len()).map(|_| if rng.bool() { '1' } else { '0' }).collect::<String>())
+            format!(" idems={}", (0..scripts.len()).map(|_| *rng.pick(&['1', '0', '0', '-'])).collect::<String>())
         } else {
             String::new()
         };
@@ -1693,9 +1708,11 @@ fn generate_all(rng: &mut Rng, tier: Tier, emit: &mut dyn FnMut(String)) {
                 None => String::new(),
             }
         );
+        // "not marked idempotent" = the setter was never called
+        let idem_s = if idem == 0 && rng.chance(1, 3) { "-".to_owned() } else { idem.to_string() };
         emit(format!(
-            "wire retry n={} sh=0 pol={} idem={} kind={} cl={} via={} cfg={}{} seed={} scripts={}",
-            n, pol, idem, kind, cl, via, cfg, extra, rng.below(1 << 32), scripts.join("/")
+            "wire retry n={} sh=0 pol={} idem={} kind={} cl={} via={} cfg={}{}{} seed={} scripts={}",
+            n, pol, idem_s, kind, cl, via, cfg, der, extra, rng.below(1 << 32), scripts.join("/")
         ));
     }
 
